@@ -75,8 +75,13 @@ func (c08) Gen(dt *drv.T, c *Ctx) any {
 			na = 4
 		}
 	}
+	names := actionNames(dt)
 	for i := 0; i < na; i++ {
-		rs.Actions = append(rs.Actions, genC08Action(dt, i, &label))
+		a := genC08Action(dt, i, &label)
+		if rs.SM == "" {
+			a.Name = names[i]
+		}
+		rs.Actions = append(rs.Actions, a)
 	}
 	if chance(dt, "allskip", 6) {
 		for _, a := range rs.Actions {
